@@ -13,6 +13,17 @@ class Broken(Exception):
     """The machinery could not decide (missing anchor, floor not met, control not flagged)."""
 
 
+_CFG_SUFFIX = ("@release", "@nostd", "@concurrent", "@default")
+
+
+def _base_key(k):
+    """obligation key without the build-configuration suffix the thorough tier appends (keys themselves may contain '@')"""
+    for sfx in _CFG_SUFFIX:
+        if k.endswith(sfx):
+            return k[:-len(sfx)]
+    return k
+
+
 class Checker:
     def __init__(self, prop, tier="quick", seed=0):
         self.prop = prop
@@ -78,7 +89,7 @@ class Checker:
         viol = [o for o in self.obligations if not o["ok"]]
         # a listed finding is one construct of the source; the thorough tier meets it again in every further build configuration
         # (`...@release`, `...@nostd`): it is matched by its key without the configuration suffix
-        base = lambda k: k.split("@")[0]
+        base = _base_key
         unlisted = [o for o in viol if base(o["key"]) not in open_keys]
         listed = [o for o in viol if base(o["key"]) in open_keys]
         # dedupe by key
@@ -117,7 +128,7 @@ class Checker:
         total = len(self.obligations)
         good = total - len(viol)
         print(f"[{self.prop}] tier={self.tier} obligations={total} discharged={good} "
-              f"known={len(set(o['key'].split('@')[0] for o in listed))} violations={n} "
+              f"known={len(set(_base_key(o['key']) for o in listed))} violations={n} "
               f"functions={len(self.analysed['functions'])} wall={time.time() - self.t0:.1f}s")
         return 1 if n else 0
 
@@ -153,7 +164,7 @@ class Checker:
                 "configs": sorted(self.analysed["configs"]),
                 "instance_counts": self.stats,
                 "positive_controls": self.controls,
-                "known_findings_matched": sorted(set(o["key"].split("@")[0] for o in listed)),
+                "known_findings_matched": sorted(set(_base_key(o["key"]) for o in listed)),
                 "notes": self.analysed["notes"],
             },
             "assumptions": self.assumptions,
